@@ -126,6 +126,23 @@ pub fn run(s: &mut Session, ctx: &Ctx) {
             colors.push(Color::from_rgba(r, g, b, 1.0 - 1e-5 * (k as f64 + 1.0) / 100.0));
         }
     }
+    // the direct oracle on these 8-bit colours too: every hex alpha level, every three-decimal
+    // alpha, and alphas within 1e-5 of 1 (where "omit alpha" and "print alpha" meet)
+    for c in colors.clone().iter() {
+        for kind in NOTATIONS {
+            for spaces in [false, true] {
+                if kind == "hex" && spaces {
+                    continue;
+                }
+                s.count_case("", true);
+                match std::panic::catch_unwind(|| roundtrip(kind, c, spaces)) {
+                    Err(_) => s.fail("no-panic", kind, show_color(c), "panic".into()),
+                    Ok(Ok(())) => s.check(true, "", "", String::new, String::new),
+                    Ok(Err((clause, detail))) => s.fail(&clause, &format!("to_{}_string / parse_color", kind), format!("{} {}", show_color(c), if spaces { "spaces" } else { "no-spaces" }), detail),
+                }
+            }
+        }
+    }
     let nh = if ctx.thorough { 100_000 } else { 3_000 };
     for _ in 0..nh {
         colors.push(gen::color_hsl(&mut rng));
